@@ -41,7 +41,7 @@ run.print_start_message = lambda: None
 sys.argv = ["run.py", p.get("config") or "generated.ini"]
 random.seed(p["seed"])
 tracer.TRACER = tracer.Tracer(p.get("max_legs", 300), record_fresh=p.get("record_fresh", True),
-                              record_instates=p.get("record_instates", True))
+                              record_instates=p.get("record_instates", True), light=bool(p.get("light")))
 err = None
 try:
     stdout = sys.stdout
